@@ -355,13 +355,24 @@ func ExportDistribution(filename string, distribution ConfigurableDistribution) 
   return distribution.ExportConfig().ExportJson(filename)
 }
 
+// Import a configuration and report a malformed one (e.g. too few or
+// wrongly typed parameters) as error instead of crashing
+func importConfig(distribution ConfigurableDistribution, config ConfigDistribution, t ScalarType) (err error) {
+  defer func() {
+    if r := recover(); r != nil {
+      err = fmt.Errorf("invalid configuration for `%s': %v", config.Name, r)
+    }
+  }()
+  return distribution.ImportConfig(config, t)
+}
+
 func ImportDistribution(filename string, distribution ConfigurableDistribution, t ScalarType) error {
   config := ConfigDistribution{}
 
   if err := config.ImportJson(filename); err != nil {
     return err
   }
-  if err := distribution.ImportConfig(config, t); err != nil {
+  if err := importConfig(distribution, config, t); err != nil {
     return err
   }
   return nil
@@ -373,7 +384,7 @@ func ImportScalarPdfConfig(config ConfigDistribution, t ScalarType) (ScalarPdf, 
   if distribution := NewScalarPdf(config.Name); distribution == nil {
     return nil, fmt.Errorf("unknown distribution: %s", config.Name)
   } else {
-    if err := distribution.ImportConfig(config, t); err != nil {
+    if err := importConfig(distribution, config, t); err != nil {
       return nil, err
     }
     return distribution, nil
@@ -394,7 +405,7 @@ func ImportVectorPdfConfig(config ConfigDistribution, t ScalarType) (VectorPdf, 
   if distribution := NewVectorPdf(config.Name); distribution == nil {
     return nil, fmt.Errorf("unknown distribution: %s", config.Name)
   } else {
-    if err := distribution.ImportConfig(config, t); err != nil {
+    if err := importConfig(distribution, config, t); err != nil {
       return nil, err
     }
     return distribution, nil
@@ -415,7 +426,7 @@ func ImportMatrixPdfConfig(config ConfigDistribution, t ScalarType) (MatrixPdf, 
   if distribution := NewMatrixPdf(config.Name); distribution == nil {
     return nil, fmt.Errorf("unknown distribution: %s", config.Name)
   } else {
-    if err := distribution.ImportConfig(config, t); err != nil {
+    if err := importConfig(distribution, config, t); err != nil {
       return nil, err
     }
     return distribution, nil
